@@ -13,6 +13,7 @@ NIC disable, ticks).  At EVERY explored state:
 from __future__ import annotations
 
 import copy
+import os
 import time
 
 from .. import common, engine, harness_env as HE, harness_sim as HS
@@ -235,7 +236,83 @@ class ReqAdapter(engine.Adapter):
                     add(violation("existing_target_never_unreachable", "action:%s:%s" % (name, w[0]),
                                   "action %s %s names existing components but request %r was %s / answered %s" % (
                                       name, self.actions[i]["options"], req, w, status)))
+        # C: handler-reaching raw paths that no action class forms, with well-formed primitive arguments
+        # Off by default: without per-handler argument types an exception cannot be told from an ill-typed argument
+        # (ACLAction["admin"] -> KeyError, IPv4Address(False) -> AttributeError ...), i.e. the probe would demand more than
+        # C05 states. VERIF_C05_HANDLERS=1 runs it for information.
+        if os.environ.get("VERIF_C05_HANDLERS") and (ev[0] in ("init",) or not self.light):
+            viols_c = self._probe_handlers(s, paths, rm)
+            for v in viols_c:
+                add(v)
         return list(viols.values())
+
+    POOL = ["admin", "wrong-password", "10.0.0.2", "nope", "bogus-session-id", 1, False]
+
+    def _probe_handlers(self, s, paths, rm):
+        """Every leaf of the request tree is called (in a forked snapshot, one per leaf kind) with every vector of up to three
+        well-formed primitive values. Arity/type mismatches (IndexError, ValueError, TypeError, pydantic validation) are the
+        caller's fault and ignored; an AttributeError or KeyError escaping from apply_request is a request that was not
+        answered (e.g. a handler choking on its own None result, or on a user/session that does not exist)."""
+        import itertools
+
+        sim = s.sim
+        kinds = {}
+        covered = set()
+        for e in self.actions:
+            try:
+                covered.add(_kind(_form(e)) + "/" + str(_form(e)[-1]))
+            except Exception:  # noqa
+                pass
+        for path in paths:
+            if walk(rm, list(path))[0] != "handler":
+                continue
+            k = _leaf_kind(sim, path)
+            kinds.setdefault(k, list(path))
+        vectors = [()]
+        for n in (1, 2, 3):
+            vectors += list(itertools.product(self.POOL, repeat=n))
+        s.stats["handler_leaf_kinds"] = len(kinds)
+        s.stats["handler_calls"] = s.stats.get("handler_calls", 0) + len(kinds) * len(vectors)
+
+        def one(item):
+            k, path = item
+            bad = {}
+            for vec in vectors:
+                try:
+                    r = sim.apply_request(list(path) + list(vec))
+                    if r is None or getattr(r, "status", None) not in STATUSES:
+                        bad.setdefault("answer:%r" % (type(r).__name__,), (list(vec), repr(r)[:120]))
+                except (IndexError, ValueError, TypeError) as e:  # arity / ill-typed argument: malformed by the caller
+                    continue
+                except (AttributeError, KeyError) as e:
+                    bad.setdefault(type(e).__name__, (list(vec), "%s: %s" % (type(e).__name__, str(e)[:160])))
+                except Exception as e:  # noqa - pydantic ValidationError and friends: ill-typed argument
+                    if "ValidationError" in type(e).__name__:
+                        continue
+                    bad.setdefault(type(e).__name__, (list(vec), "%s: %s" % (type(e).__name__, str(e)[:160])))
+            return bad
+
+        out = []
+        for (k, path), bad in engine.fork_each(sorted(kinds.items()), one):
+            for exc, (vec, msg) in bad.items():
+                out.append(violation("answered_not_raised", "handler:%s:%s" % (k, exc),
+                                     "request %r + %r was not answered: %s" % (path, vec, msg)))
+        return out
+
+
+def _leaf_kind(sim, path):
+    """Leaf path with instance names replaced by the node's type (one representative per kind is probed)."""
+    out = []
+    node = None
+    for i, x in enumerate(path):
+        if i == 2 and path[:2] == ["network", "node"]:
+            node = sim.network.get_node_by_hostname(x)
+            out.append(type(node).__name__ if node is not None else "*")
+        elif i >= 2 and path[i - 1] in ("folder", "file") and x not in ("file", "folder"):
+            out.append("*")
+        else:
+            out.append(str(x))
+    return "/".join(out)
 
 
 def _compare_impl(ad, s, base, batch, add):
